@@ -108,7 +108,7 @@ def setup(ctx):
     CTX = ctx
     probes.hook(md.fvm1d, "rhs", after=monitor_rhs1d)
     probes.hook(md.fvm2dcart, "rhs", after=monitor_rhs2d)
-    ctx.require("rhs1d:per", "rhs1d:sym", "rhs1d:open", "rhs2d:per", "rhs2d:mixed", "solve:explicit", "solve:implicit", "solve:open-boundaries", "history:directives")
+    ctx.require("rhs1d:per", "rhs1d:sym", "rhs1d:open", "rhs2d:per", "rhs2d:mixed", "solve:explicit", "solve:implicit", "solve:open-boundaries", "history:directives", "solve:large")
 
 
 def teardown(ctx):
@@ -289,6 +289,50 @@ def solve1d(ctx, rng, idx):
     ctx.info.setdefault("solve_integrators", {}).setdefault(iname, 0)
     ctx.info["solve_integrators"][iname] += 1
     ctx.nontrivial("solve", iname, cfl, nstep, s.desc())
+
+
+@group(quick=40, thorough=1000)
+def solve1d_large(ctx, rng, idx):
+    """the same invariants on LARGE systems (90-400 cells, several hundred unknowns: a size-dependent code path -- another linear
+    solver, a vectorised branch -- is only taken there), implicit and explicit integrators, smooth data and one-directional
+    (fully supersonic / subsonic) streams, periodic and wall boundaries"""
+    iname = ["implicit", "cranknicolson", "gear", "backwardeuler", "rk3ssp", "explicit", "trapezoidal", "rk4"][idx % 8]
+    implicit = iname in gen.IMPLICIT
+    bc = str(rng.choice(["per", "per", "sym"]))
+    mname = str(rng.choice(["euler1d", "euler1d", "nozzle", "shallowwater", "burgers", "convection"]))
+    neq = {"euler1d": 3, "nozzle": 3, "shallowwater": 2}.get(mname, 1)
+    n = -(-257 // neq) + int(rng.integers(0, 16)) if implicit else int(rng.integers(90, 400))      # implicit: just above 256 unknowns
+    s = gen.scenario1d(rng, mname=mname, bc=bc, ncell=n, dkind=str(rng.choice(["smooth", "stream", "stream"])), mach_max=2.5, ratio=2.0,
+                       recons=["extrapol1", "extrapol1", "extrapol2", "muscl_minmod", "extrapol3"], meshkinds=["uni", "refined", "morphed"], warm=False)
+    cfl = float(rng.uniform(0.2, 2.0)) if implicit else float(rng.uniform(0.05, 0.4))
+    nstep = int(rng.integers(1, 4)) if implicit else int(rng.integers(2, 8))
+    ctx.describe(integrator=iname, cfl=cfl, nstep=nstep, unknowns=s.model.neq * s.mesh.ncell, **{k: v for k, v in s.desc().items() if k != "prim"}, prim_head=[p[:4] for p in s.prim])
+    solver = gen.integ(iname)(s.mesh, s.disc)
+    I0 = _integral(s.mesh, s.field, s.model.neq)
+    A0 = [np.sum(s.mesh.vol() * np.abs(q)) for q in s.field.data]
+    try:
+        with probes.quiet():        # the operator monitor has its own large-mesh cases; here the integrals of the solve are judged
+            res = solver.solve(s.field, cfl, stop={"maxit": nstep})
+    except np.linalg.LinAlgError:
+        raise core.Skip("singular implicit system")
+    fend = res[-1]
+    if not all(np.all(np.isfinite(q)) for q in fend.data):
+        ctx.skip("solve1d_large:nonfinite-end")
+        return
+    I1 = _integral(s.mesh, fend, s.model.neq)
+    A1 = [np.sum(s.mesh.vol() * np.abs(q)) for q in fend.data]
+    keep = range(s.model.neq) if s.bckind == "per" else {"euler": (0, 2), "shallowwater": (0,)}.get(s.model.equation, ())
+    tol = TOL_IMPL * max(1.0, cfl) if implicit else TOL_EXPL
+    for i in keep:
+        scale = max(A0[i], A1[i]) * max(1, nstep)
+        if implicit and i == 1 and s.model.equation in ("euler", "shallowwater"):
+            cc = np.sqrt(s.model.gamma * s.prim[2] / s.prim[0]) if s.model.equation == "euler" else np.sqrt(s.model.g * s.prim[0])
+            scale = max(scale, float(np.sum(s.mesh.vol() * s.prim[0] * cc)) * max(1, nstep))
+        if scale == 0:
+            continue
+        ctx.close("solve:large", (I1[i] - I0[i]) / scale, tol, "solve1d-large/%s/integral-drift" % ("implicit" if implicit else "explicit"),
+                  {"eq": i, "I0": I0[i], "I1": I1[i], "integrator": iname, "cfl": cfl, "unknowns": s.model.neq * s.mesh.ncell}, cls="solve:large")
+    ctx.nontrivial("solve-large", iname, cfl, nstep, s.desc())
 
 
 @group(quick=60, thorough=2000)
